@@ -407,7 +407,11 @@ class SkipgramVectorizer(BaseEstimator, TransformerMixin):
             tuple(*self.kernel_args.values()),
         )
 
-        base_matrix = scipy.sparse.coo_matrix((data, (row, col)))
+        n_unique_tokens = len(self._window_sizes) - 1
+        base_matrix = scipy.sparse.coo_matrix(
+            (data, (row, col)),
+            shape=(len(token_sequences), n_unique_tokens ** 2),
+        )
         column_sums = np.array(base_matrix.sum(axis=0))[0]
         self._column_is_kept = column_sums > 0
         self._kept_columns = np.where(self._column_is_kept)[0]
@@ -458,7 +462,10 @@ class SkipgramVectorizer(BaseEstimator, TransformerMixin):
             tuple(*self.kernel_args.values()),
         )
 
-        base_matrix = scipy.sparse.coo_matrix((data, (row, col)))
+        base_matrix = scipy.sparse.coo_matrix(
+            (data, (row, col)),
+            shape=(len(token_sequences), len(self._column_is_kept)),
+        )
         result = base_matrix.tocsc()[:, self._column_is_kept].tocsr()
 
         return result
